@@ -30,18 +30,27 @@ use crate::context::snapshot::ServerContextInner;
 // This module uses multiple locks (RwLock and Mutex) for concurrent access to shared state.
 // To prevent deadlocks, **ALL code must acquire locks in the following order**:
 //
-// ## Global Lock Order (Low to High Priority):
-// 1. **diagnostic_tokens** (Mutex) - File diagnostic task tokens
-// 2. **workspace_diagnostic_token** (Mutex) - Workspace diagnostic task token
-// 3. **config_reload_token / reindex_token** (Mutex) - Debounced workspace tasks
-// 4. **reload_lock** (tokio::Mutex) - Serializes full workspace reloads
-// 5. **analysis** (RwLock - READ) - Read-only access to EmmyLuaAnalysis
-// 6. **workspace_manager** (RwLock - READ) - Read-only access to WorkspaceManager
-// 7. **workspace_manager** (RwLock - WRITE) - Exclusive access to WorkspaceManager
-// 8. **analysis** (RwLock - WRITE) - Exclusive access to EmmyLuaAnalysis
+// ## Global Lock Order (acquire from top to bottom, one rank per LOCK):
+// 1. **reload_lock** (tokio::Mutex) - Serializes full workspace reloads; only reload tasks take it
+// 2. **workspace_manager** (RwLock - read OR write) - WorkspaceManager
+// 3. **analysis** (RwLock - read OR write) - EmmyLuaAnalysis
+// 4. leaf mutexes, never held while requesting anything else:
+//    **diagnostic_tokens**, **workspace_diagnostic_token**, request `cancellations`,
+//    the client `response_manager`
+// (`config_reload_token` / `reindex_token` are `std::sync::Mutex`es that are never held across an
+// `.await`; they are outside this order.)
+//
+// tokio's RwLock is FAIR: once a writer is queued, later read requests wait behind it.  Therefore
+// the read and the write mode of one lock share a rank: "analysis (read) before workspace_manager
+// (read)" in one task and "workspace_manager (read) before analysis (write)" in another deadlock as
+// soon as any task queues `workspace_manager.write()` in between, and re-acquiring a read lock
+// that is already held deadlocks in the same way.
 //
 // ## Lock Ordering Rules:
-// - **NEVER acquire a lower-priority lock while holding a higher-priority lock**
+// - **NEVER acquire a lock while holding a lock that comes later in the list**
+// - **NEVER acquire a lock (in any mode) that the task already holds**
+// - **NEVER wait for a client response or for another task while holding `workspace_manager`,
+//   `analysis` or a leaf mutex** (client responses are routed by the main loop, which takes them)
 // - **ALWAYS release locks in reverse order (LIFO) or use explicit scope blocks**
 // - **NEVER upgrade a read lock to a write lock (release read, then acquire write)**
 // - **Minimize lock scope**: only hold locks for the minimum necessary time
